@@ -1,6 +1,7 @@
 import FluteModel.Recv
 import FluteModel.Lemmas.RecvBounds
 import FluteModel.Lemmas.RecvToy
+import FluteModel.Lemmas.RecvGrowth
 /-
   C17 - receiver memory is bounded by configuration, not by traffic: the SESSION-LEVEL registries
   (`Receiver`: objects_error, fdt_current, objects_completed, objects, fdt_receivers).
@@ -84,6 +85,36 @@ theorem cleanup_releases_unfinished_fdt (I : ObjIface σ) (s s' : State σ) (now
 theorem session_reported_expired (s : State σ) (h : s.cfg.sessionTimeout = true) :
     isExpired s true = true := by
   simp [isExpired, h]
+
+/-- **registries_linear_in_datagrams.**  `objects` and `fdt_receivers` are the two registries that
+    traffic can grow (until the time-outs release them): after a history of `n` calls they hold at
+    most `n` entries each - one datagram creates at most one object and one FDT-instance receiver. -/
+theorem registries_linear_in_datagrams (I : ObjIface σ) :
+    ∀ (ops : List Op) (s s' : State σ) (out : List (Res × List Ev)), run I s ops = some (s', out) →
+      s'.objects.length ≤ s.objects.length + ops.length ∧
+      s'.fdtReceivers.length ≤ s.fdtReceivers.length + ops.length := by
+  intro ops
+  induction ops with
+  | nil =>
+    intro s s' out h
+    simp only [run, Option.some.injEq, Prod.mk.injEq] at h
+    obtain ⟨rfl, _⟩ := h
+    exact ⟨Nat.le_refl _, Nat.le_refl _⟩
+  | cons op ops ih =>
+    intro s s' out h
+    unfold run at h
+    split at h
+    · cases h
+    · rename_i s1 r ev hs
+      split at h
+      · cases h
+      · rename_i s2 out2 hr
+        simp only [Option.some.injEq, Prod.mk.injEq] at h
+        obtain ⟨rfl, _⟩ := h
+        have h1 := step_growth I s s1 op r ev hs
+        have h2 := ih s1 s2 out2 hr
+        simp only [List.length_cons]
+        omega
 
 /-- **D16, negation witness for the unrepaired tree.**  With the `cleanup_fdt` that was in the tree
     before commit 6bdd56c, every `Receiving` instance survives every cleanup, whatever time has
